@@ -1,7 +1,9 @@
 (* C20 — property theorems only. Each is closed by `exact` of a lemma proved in Proofs/. *)
 From JV Require Import Lib.Base Lib.C20Text Lib.C20Regex Model.C20Base Gen.C20Operators Gen.C20Regexes Gen.C20Registry
   Model.C20Restricted Model.C20RestrictedStr Spec.C20RestrictedSpec Model.C20Registered
-  Proofs.C20RestrictedProofs Proofs.C20RegisteredProofs Proofs.C20RangeRegexProofs Proofs.C20TdRegexProofs.
+  Model.C20NumRegistry Model.C20RegisterType
+  Proofs.C20RestrictedProofs Proofs.C20RegisteredProofs Proofs.C20RangeRegexProofs Proofs.C20TdRegexProofs
+  Proofs.C20NumRegistryProofs.
 Local Open Scope Z_scope.
 
 (* The operator table of jsonargparse/typing.py (regenerated into Gen/C20Operators.v on every run)
@@ -42,6 +44,66 @@ Theorem C20_restricted_parse :
     check_type t loaded orig = spec_check_type (r_base t) (r_restr t) (r_join t) loaded orig.
 Proof. exact check_type_spec_lemma. Qed.
 Print Assumptions C20_restricted_parse.
+
+(* Creating a restricted number type goes through restricted_number_type's argument checks, its register key
+   (tuple(sorted(restrictions)), base_type, join) — compared as Python compares tuples, references numerically — and
+   extend_base_type / add_type's registry. Whatever was created before (nreg_wf holds of the empty registry and is
+   preserved): a type handed back — new, or found under an equal key, i.e. created from a permutation of the list
+   or from other int/float spellings of the references — validates exactly like the type STATED IN THIS CALL, for
+   every value; with C20_restricted_exact: it accepts iff the value converts and satisfies the stated comparisons. *)
+Theorem C20_number_type_creation :
+  forall st name t r st',
+    nreg_wf st -> create_num st name t = (Some r, st') ->
+    (forall v, construct r v = construct t v) /\ nreg_wf st'.
+Proof. exact create_num_stated_lemma. Qed.
+Print Assumptions C20_number_type_creation.
+
+(* the same along ANY history of creations (names and types arbitrary, refused calls included) *)
+Theorem C20_number_type_histories :
+  forall calls st rs st',
+    nreg_wf st -> create_all st calls = (rs, st') ->
+    Forall2 (fun call r => match r with Some t' => forall v, construct t' v = construct (snd call) v | None => True end)
+            calls rs
+    /\ nreg_wf st'.
+Proof. exact create_all_stated_lemma. Qed.
+Print Assumptions C20_number_type_histories.
+
+(* every type that passes the creation checks is one C20_restricted_exact speaks about *)
+Theorem C20_number_type_creation_valid :
+  forall b rs, creation_ok b rs = true -> valid_syms rs = true.
+Proof. exact creation_ok_valid. Qed.
+Print Assumptions C20_number_type_creation_valid.
+
+Example C20_number_type_creation_example :
+  let t1 := {| r_base := BFloat; r_restr := [(s_ge, NI 0); (s_le, NI 1)]; r_join := JAnd |} in
+  let t2 := {| r_base := BFloat; r_restr := [(s_le, NF (FFin 1000000)); (s_ge, NI 0)]; r_join := JAnd |} in
+  let st0 := {| ns_reg := []; ns_names := [] |} in
+  nreg_wf st0
+  /\ fst (create_num (snd (create_num st0 [65]%N t1)) [65]%N t2) = Some t1      (* found again: permuted, 1 vs 1.0 *)
+  /\ fst (create_num (snd (create_num st0 [65]%N t1)) [66]%N t2) = None         (* other name: refused *)
+  /\ fst (create_num st0 [65]%N {| r_base := BInt; r_restr := [(s_gt, NF (FFin 2500000))]; r_join := JAnd |}) = None.
+Proof. split; [apply nreg_wf_empty | vm_compute; repeat split; reflexivity]. Qed.
+
+(* register_type as a transition of registered_type_handlers: along any history of calls with the default flags
+   (no uniqueness key, fail_already_registered=True) — refused or not — a type that was registered keeps its pair:
+   the pairs C20_registry finds in the source are the ones in force whatever user code registers later. *)
+Theorem C20_registry_stable :
+  forall calls tbl ty h0, reg_lookup tbl ty = Some h0 -> reg_lookup (register_all tbl calls) ty = Some h0.
+Proof. exact register_all_keeps. Qed.
+Print Assumptions C20_registry_stable.
+
+(* a default-flag call that is let through for a registered type repeated the pair it already has *)
+Theorem C20_register_type_repeat :
+  forall tbl ty h tbl' h0,
+    register_type tbl ty h true false = Some tbl' -> reg_lookup tbl ty = Some h0 -> handler_eqb h h0 = true /\ tbl' = tbl.
+Proof. exact register_default_same. Qed.
+Print Assumptions C20_register_type_repeat.
+
+Example C20_registry_stable_example :
+  reg_lookup registry ty_range = Some (SerRange, DesRange)
+  /\ register_type registry ty_range (SerStr, DesRange) true false = None
+  /\ register_type registry ty_range (SerRange, DesRange) true false = Some registry.
+Proof. vm_compute. repeat split; reflexivity. Qed.
 
 (* A restricted string type accepts v (unchanged) iff v is a str and the pattern matches at its
    start — re.match: SOME PREFIX of v is in the language of the pattern, unless the pattern ends in
